@@ -16,6 +16,10 @@ func init() { _ = constant.StringVal }
 func (a *Act) instr(st *State, b *ssa.BasicBlock, instr ssa.Instruction) {
 	tr := a.tr
 	sorts := tr.eng.sorts
+	if instr.Pos().IsValid() {
+		a.curPos = instr.Pos()
+	}
+	a.cur = st
 	switch in := instr.(type) {
 	case *ssa.DebugRef:
 	case *ssa.Phi:
@@ -38,6 +42,7 @@ func (a *Act) instr(st *State, b *ssa.BasicBlock, instr ssa.Instruction) {
 		id := tr.define(a.prefix+in.Name(), "Int", app("+", st.alloc, "1"))
 		st.alloc = id
 		a.vals[in] = id
+		st.owned[a.prefix+in.Name()] = ownedCell{addr: id, comp: tr.cellComp(et).name}
 		lv := &LV{kind: lvCell, typ: et, addr: id}
 		a.lvs[in] = lv
 		a.store(st, lv, sorts.zero(et))
@@ -45,7 +50,7 @@ func (a *Act) instr(st *State, b *ssa.BasicBlock, instr ssa.Instruction) {
 		base := a.lvOf(st, in.X)
 		pt := in.X.Type().Underlying().(*types.Pointer).Elem()
 		stt := pt.Underlying().(*types.Struct)
-		if base.kind == lvCell {
+		if base.kind == lvCell && !knownNonNil(in.X) {
 			a.mayPanic(st, "nilderef", in.Pos(), Not(Eq(base.addr, "0")), "")
 		}
 		a.lvs[in] = &LV{kind: lvField, typ: stt.Field(in.Field).Type(), base: base, field: in.Field}
@@ -86,7 +91,7 @@ func (a *Act) instr(st *State, b *ssa.BasicBlock, instr ssa.Instruction) {
 		}
 	case *ssa.Store:
 		lv := a.lvOf(st, in.Addr)
-		if lv.kind == lvCell {
+		if lv.kind == lvCell && !knownNonNil(in.Addr) {
 			a.mayPanic(st, "nilderef", in.Pos(), Not(Eq(lv.addr, "0")), "")
 		}
 		a.storeCheck(st, lv, in.Pos())
@@ -147,6 +152,9 @@ func (a *Act) instr(st *State, b *ssa.BasicBlock, instr ssa.Instruction) {
 		tr.eng.noteClosure(tr, cl)
 		// captured variables escape: make sure first-class addresses exist
 		for _, bv := range in.Bindings {
+			if al, ok := bv.(*ssa.Alloc); ok {
+				delete(st.owned, a.prefix+al.Name())
+			}
 			if lv, ok := a.lvs[bv]; ok && lv.kind != lvCell && lv.kind != lvLocal {
 				a.firstClass(st, lv)
 			}
@@ -232,7 +240,7 @@ func (a *Act) unop(st *State, in *ssa.UnOp) {
 	switch in.Op {
 	case token.MUL: // load
 		lv := a.lvOf(st, in.X)
-		if lv.kind == lvCell {
+		if lv.kind == lvCell && !knownNonNil(in.X) {
 			a.mayPanic(st, "nilderef", in.Pos(), Not(Eq(lv.addr, "0")), "")
 		}
 		t := a.load(st, lv)
@@ -604,4 +612,17 @@ func (a *Act) next(st *State, in *ssa.Next) {
 func (a *Act) mayPanicExplicit(st *State, in *ssa.Panic) {
 	x := a.val(in.X)
 	a.mayPanic(st, "explicit", in.Pos(), "false", x)
+}
+
+// knownNonNil: pointer values that are syntactically non-nil.
+func knownNonNil(v ssa.Value) bool {
+	switch v := v.(type) {
+	case *ssa.Alloc, *ssa.Global, *ssa.FieldAddr, *ssa.IndexAddr, *ssa.FreeVar:
+		return true
+	case *ssa.Const:
+		return false
+	default:
+		_ = v
+	}
+	return false
 }
